@@ -401,6 +401,10 @@ class FitEngine(Engine):
                 scn["interleave"] = {"sweep": [i - half, half], "other_seed": scn["truth"]["seed"], "depth": depth}
             return scn
         scn = generate(rng, tier, i)
+        if len(scn["estimates"]) > 1 and scn["windows"]["mode"] == "scalar" and rng.random() < 0.08:
+            # the same estimate given twice (two candidate lists merged): still one result each
+            k = rng.randrange(len(scn["estimates"]) - 1)
+            scn["estimates"][k + 1] = scn["estimates"][k]
         if rng.random() < 0.15:
             # single precision caller: estimates and scalar width are float32 variables (the
             # scenario keeps their exact float32 values so that every oracle sees the same numbers)
